@@ -265,6 +265,76 @@ func (sc *SCtx) traceBuiltin(x SCall) (Val, types.Type, bool, error) {
 		e.declStr()
 		e.decls.fun("str_of_rune", []string{"Int"}, "Int")
 		return tv(app(SInt, "str_of_rune", a.T)), types.Typ[types.String], true, nil
+	case "rangekeys":
+		// rangekeys(n, k): key k was present in the map when the n-th map iteration of this function started
+		if len(x.Args) != 2 {
+			return Val{}, nil, true, fmt.Errorf("rangekeys(n, k) expects two arguments")
+		}
+		nl, ok := x.Args[0].(SNum)
+		if !ok {
+			return Val{}, nil, true, fmt.Errorf("rangekeys(n, k): n must be a literal")
+		}
+		n, _ := strconv.Atoi(nl.Val)
+		var rs []*ssa.Range
+		if e.fn != nil {
+			for _, b := range e.fn.Blocks {
+				for _, ins := range b.Instrs {
+					if r, ok := ins.(*ssa.Range); ok {
+						if _, isMap := r.X.Type().Underlying().(*types.Map); isMap {
+							rs = append(rs, r)
+						}
+					}
+				}
+			}
+		}
+		if n < 0 || n >= len(rs) {
+			return Val{}, nil, true, fmt.Errorf("rangekeys(%d, k): the function has %d map iterations", n, len(rs))
+		}
+		start, has := e.rangeStart[rs[n]]
+		if !has {
+			return Val{}, nil, true, fmt.Errorf("rangekeys(%d, k): the iteration has not started at this point", n)
+		}
+		k, _, err := sc.eval(x.Args[1])
+		if err != nil {
+			return Val{}, nil, true, err
+		}
+		return tv(Select(start, e.asTerm(sc.st, k))), types.Typ[types.Bool], true, nil
+	case "visited":
+		// visited(n, k): key k has been produced by the n-th map iteration (range over a map, in block order) of this function
+		if len(x.Args) != 2 {
+			return Val{}, nil, true, fmt.Errorf("visited(n, k) expects two arguments")
+		}
+		nl, ok := x.Args[0].(SNum)
+		if !ok {
+			return Val{}, nil, true, fmt.Errorf("visited(n, k): n must be a literal")
+		}
+		n, _ := strconv.Atoi(nl.Val)
+		var rs []*ssa.Range
+		if e.fn != nil {
+			for _, b := range e.fn.Blocks {
+				for _, ins := range b.Instrs {
+					if r, ok := ins.(*ssa.Range); ok {
+						if _, isMap := r.X.Type().Underlying().(*types.Map); isMap {
+							rs = append(rs, r)
+						}
+					}
+				}
+			}
+		}
+		if n < 0 || n >= len(rs) {
+			return Val{}, nil, true, fmt.Errorf("visited(%d, k): the function has %d map iterations", n, len(rs))
+		}
+		k, _, err := sc.eval(x.Args[1])
+		if err != nil {
+			return Val{}, nil, true, err
+		}
+		mt := rs[n].X.Type().Underlying().(*types.Map)
+		name := visitedComp(rs[n])
+		srt := arrSort(sortOf(mt.Key()), SBool)
+		if _, ok := e.compSort[name]; !ok {
+			e.compSort[name] = srt
+		}
+		return tv(Select(e.comp(sc.st, name, srt), e.asTerm(sc.st, k))), types.Typ[types.Bool], true, nil
 	case "f64":
 		// f64(n): the float64 constant with the integer value n (a literal, not a conversion)
 		n, ok := x.Args[0].(SNum)
